@@ -35,6 +35,8 @@ var claimKernels = []gen.ExecKernel{
 	{Family: "offBy1", Body: "defer func() {\nif e := recover(); e != nil {\nr1 = \"panic\"\n}\n}()\nr0 = int(s[len(s)]) + int(bs[len(bs)])", Focus: []string{"s", "bs"}},
 	{Family: "offBy1", Body: "defer func() {\nif e := recover(); e != nil {\nr1 = \"panic\"\n}\n}()\nm := map[int]int{0: 7, 1: 8}\nr0 = m[len(m)]", Focus: []string{"a"}},
 	{Family: "offBy1", Body: "defer func() {\nif e := recover(); e != nil {\nr1 = \"panic\"\n}\n}()\nlen := func(v []int) int { return 0 }\nys := append([]int{5}, xs...)\nr0 = ys[len(ys)]", Focus: []string{"xs"}},
+	{Family: "nilValReturn", Body: "n := 0\nnext := func() *pair {\nn++\nif n%2 == 1 {\nreturn nil\n}\nreturn &pair{a: n}\n}\nh := func() *pair {\nif nil == next() {\nreturn next()\n}\nreturn nil\n}\nh2 := func() *pair {\nif next() == nil {\nreturn next()\n}\nreturn nil\n}\nr2 = h() == nil && h2() == nil && p", Focus: []string{"p"}},
+	{Family: "nilValReturn", Body: "ch := make(chan error, 4)\nch <- nil\nch <- fmt.Errorf(\"x\")\nh := func() error {\nif nil == <-ch {\nreturn <-ch\n}\nreturn nil\n}\nvar in *pair\nif p {\nin = &pair{}\n}\ng := func(pp *pair) *pair {\nif nil == pp {\nreturn pp\n}\nif nil != pp {\nreturn pp\n}\nreturn nil\n}\nr2 = h() == nil && g(in) == nil", Focus: []string{"p"}},
 	{Family: "nilValReturn", Body: "h := func(pp *pair) *pair {\nif pp == nil {\nreturn pp\n}\nreturn &pair{}\n}\nvar in *pair\nif p {\nin = &pair{}\n}\nr2 = h(in) == nil", Focus: []string{"p"}},
 	{Family: "nilValReturn", Body: "h := func(e error) error {\nif e == nil {\nreturn e\n}\nreturn nil\n}\nvar in error\nif p {\nin = fmt.Errorf(\"x\")\n}\nr2 = h(in) == nil", Focus: []string{"p"}},
 	{Family: "nilValReturn", Body: "h := func(ys []int, m map[string]int) ([]int, map[string]int) {\nif ys == nil {\nreturn ys, m\n}\nif m == nil {\nreturn nil, m\n}\nreturn ys, m\n}\ny2, m2 := h(xs, nil)\nr0 = len(y2) + len(m2)", Focus: []string{"xs"}},
@@ -297,6 +299,12 @@ func checkC12(t core.TB, rec *core.Recorder, env *gen.Env, all *core.Set, ec *ex
 				}
 				if be == nil {
 					rec.Count("claim-not-located:" + name)
+					continue
+				}
+				if tv, ok := p.Info.Types[be.X]; ok && tv.Value != nil {
+					// identical constant operands are the same value by construction (and an untyped
+					// constant would change its type inside the generic monitor)
+					rec.Count("claim-trivially-true:constant-operands")
 					continue
 				}
 				c.what, c.class = "both operands are the same value", isPure(p, be)
